@@ -53,7 +53,9 @@ TDExtras(t) ==
                                                                           al \in {"id", "upper"}} \ names
        IN UNION {{VDict(bv.o \o << <<DStr(n), DStr("x")>> >>) : n \in exts(bv) \cup {"zz"}} : bv \in {w \in BaseValuesFor(t) : w.k = "dict"}}
   ELSE {}
-ValuesFor(t) == BaseValuesFor(t) \cup TDExtras(t)
+\* a tuple is a value of an abstract Sequence[X] as well
+SeqExtras(t) == IF t.k = "coll" /\ t.c = "seq" THEN {VTuple(w.a) : w \in {x \in BaseValuesFor(t) : x.k = "list"}} ELSE {}
+ValuesFor(t) == BaseValuesFor(t) \cup TDExtras(t) \cup SeqExtras(t)
 
 \* the bijective fragment of C05: no asymmetric skip, no serialized method, no field dropped
 \* from the constructor, no type whose images are ambiguous
@@ -143,7 +145,7 @@ Run == /\ phase = "value"
        /\ phase' = "done" /\ UNCHANGED <<T, O, v>>
        /\ Emit => PrintT(ToJson([type |-> T, opts |-> O, value |-> v, expect |-> res',
                                  any |-> SerAny(Ctx(O), v),
-                                 bij |-> Bijective(T, {}), ambig |-> Ambig(Ctx(O), T, {}),
+                                 bij |-> Bijective(T, {}) /\ v \notin TDExtras(T) \cup SeqExtras(T), ambig |-> Ambig(Ctx(O), T, {}),
                                  gaps |-> {g \in {"flattened", "discriminated", "patoverlap", "propcount"} : UsesFeatureS(T, g, {})},
                                  saccept |-> IF HasSErr(res') THEN TRUE
                                              ELSE Validates(Ctx(O), "s", SchemaOf(Ctx(O), "s", T, <<>>, {}), AsData(res'))]))
@@ -162,7 +164,7 @@ AnyEqTyped == (phase = "done" /\ T.k = "obj" /\ v.k = "inst" /\ ~HasSErr(res)) =
 \* a REQUIRED Optional field dropped by exclude_none cannot come back (class OR)
 RoundTrip ==
   \* ... and so are TypedDict values holding undeclared keys (dropped, or shadowed by a declared key)
-  (phase = "done" /\ Bijective(T, {}) /\ ~HasSErr(res) /\ ~O.exn /\ v \notin TDExtras(T)) =>
+  (phase = "done" /\ Bijective(T, {}) /\ ~HasSErr(res) /\ ~O.exn /\ v \notin TDExtras(T) \cup SeqExtras(T)) =>
      LET back == RD(Ctx(O), T, <<>>, AsData(res)) IN
        IsUnspec(back) \/ (back.ok /\ ImageEq(Ctx(O), T, v, back.v))
 =============================================================================
